@@ -30,6 +30,24 @@ pub struct Scope {
     pub inputs: bool,
 }
 
+/// expressions that only C02 uses (they are not "closed after capture" in C05's sense: the
+/// recursion goes through the function's own name): a recursive function made and named inside a
+/// factory's do-block and used outside it, and a function whose parameter carries its own name
+pub fn naming_expressions(t: &mut Tape) -> E {
+    match t.pick(2) {
+        0 => {
+            let go = bin(Op::Add, call(id("go"), vec![bin(Op::Sub, id("q"), n(1.0))]), n(1.0));
+            let body = E::If(b(bin(Op::Le, id("q"), n(0.0))), b(n(0.0)), b(go));
+            let factory = E::Lambda(vec![], b(E::Do(vec![E::Assign("go".into(), b(E::Lambda(vec![P::Req("q".into())], b(body))))], b(id("go")))));
+            call(call(factory, vec![]), vec![n([0.0, 2.0, 3.0][t.pick(3)])])
+        }
+        _ => {
+            let f = E::Lambda(vec![P::Req("w9".into()), P::Req("k9".into())], b(bin(Op::Mul, id("w9"), id("k9"))));
+            E::Do(vec![E::Assign("w9".into(), b(f))], b(call(id("w9"), vec![n([21.0, 0.5][t.pick(2)]), n(2.0)])))
+        }
+    }
+}
+
 pub const PRELUDE: &str = "n1 = 3\nn2 = -2.5\nn3 = 0\ns1 = \"ab\"\ns2 = \"héllo wörld\"\nb1 = true\nb2 = false\nl1 = [1, 2, 3]\nl2 = [4.5, -1, 0, 7]\nls = [\"b\", \"a\", \"c\"]\nr1 = {a: 1, b: 2, k: \"v\"}\nf1 = x => x * 2 + 1\nf2 = (a, b) => a - b\nf3 = (x, y?) => if y == null then x else x + y\n";
 
 impl Scope {
